@@ -41,9 +41,36 @@ def keyed(rng):
                        X.arr([N(1), None, N(2)])])
 
 
+def join_built(rng, names):
+    """a relation over names whose stored column order is a random permutation: a chain of <&> over
+    one- or two-column literals (the product of 1-2 values a column)"""
+    sh = list(names)
+    rng.shuffle(sh)
+    groups = []
+    while sh:
+        k = 1 if len(sh) == 1 or rng.random() < 0.7 else 2
+        groups.append(sh[:k])
+        sh = sh[k:]
+    rels = [rand_rel(rng, g, rng.randrange(1, 3), "lit") for g in groups]
+    e = rels[0]
+    for r in rels[1:]:
+        e = X.join("<&>", e, r)
+    return e
+
+
 def gen_cases(rng, tier):
     out = []
     n = 700 if tier == "quick" else 6000
+    # wide x narrow with three or more common columns, either side join-built in any stored order
+    WIDE = ["a", "b", "c", "d", "e"]
+    for _ in range(120 if tier == "quick" else 1200):
+        wn = rng.sample(WIDE, rng.randrange(3, 6))
+        nn = rng.sample(wn, rng.randrange(3, len(wn) + 1)) if rng.random() < 0.8 else rng.sample(WIDE, 3)
+        wide = rand_rel(rng, wn, rng.randrange(2, 5), rng.choice(["lit", "setshuf"])) if rng.random() < 0.6 else join_built(rng, wn)
+        narrow = join_built(rng, nn) if rng.random() < 0.8 else rand_rel(rng, nn, rng.randrange(1, 4), "lit")
+        op = rng.choice(JOINS + ["-&>", "<&-"])
+        a, b = (wide, narrow) if rng.random() < 0.5 else (narrow, wide)
+        out.append(("wide/narrow %s" % op, X.join(op, a, b)))
     if tier == "thorough":
         # exhaustive heading partitions over {a,b,c}: left-only x common x right-only, both stored orders
         for la in [(), ("a",), ("a", "b")]:
@@ -125,7 +152,7 @@ def main(tier, seed, replay=None):
     for c in cases:
         ops[c.get("label")] = ops.get(c.get("label"), 0) + 1
     evalcheck.stats(run, cases, outs, codes,
-                    "pairs of relations over the attribute alphabet {a,b,c,x,@,@item,@char} (0-3 attributes a side, any overlap, 1-3 rows over 3 atoms) in the forms relation literal / set of tuples / tuples with shuffled attribute order / computed by => / join-built (stored heading not sorted) / arrays, strings and dicts used as binary relations, x the eight join operators, incl. joins of join results; nest |..|n, nest ~|..|n, single-attribute nest; rank with one or two keys; join-built relations inside =, &, &~, |, <:, sets and dicts of more than 8 members"
+                    "pairs of relations over the attribute alphabet {a,b,c,x,@,@item,@char} (0-3 attributes a side, any overlap, 1-3 rows over 3 atoms) in the forms relation literal / set of tuples / tuples with shuffled attribute order / computed by => / join-built (stored heading not sorted) / arrays, strings and dicts used as binary relations, x the eight join operators, incl. joins of join results; wide (3-5 columns over a..e) against narrow relations with three or more common columns, either side a chain of joins with any stored column order; nest |..|n, nest ~|..|n, single-attribute nest; rank with one or two keys; join-built relations inside =, &, &~, |, <:, sets and dicts of more than 8 members"
                     + ("; thorough adds every heading partition (left-only x common x right-only, both stored orders) x 8 operators" if tier == "thorough" else ""),
                     {"operator_histogram": ops, "exhaustive": False})
     run.assumptions = ["rank keys are numbers (other keys are ordered by the Go order, see C06)"]
